@@ -35,8 +35,9 @@ class Execution(object):
 def make_runner(h):
     """h: dict(name, ext, compress, steps (server bytes steps for the threaded phase), loop (number of next() calls or 0),
     threads (list of lists of (api, arg)), connect)."""
-    def run_one(choices):
+    def run_one(choices, visit=None, holder=None):
         sc = S.Sched(choices)
+        sc.visit = visit
         steps = [W.HANDSHAKE(h.get('ext', b''))]
         for st in h.get('steps', []):
             if st == 'COMPRESSED-TEXT':
@@ -49,6 +50,8 @@ def make_runner(h):
         world.make_lock = lambda reentrant: S.CoopLock(sc, reentrant)
         ex = Execution()
         ex.sched, ex.world, ex.harness = sc, world, h
+        if holder is not None:
+            holder['ex'] = ex
         with world:
             ws = W.L_websocket.WebSocket('ws://example.com/x', proxies={}, compress=bool(h.get('compress')))
             ex.ws = ws
@@ -118,7 +121,16 @@ def make_runner(h):
                 ex.released = world.released()
                 ex.selectors_closed = world.selectors_closed()
             else:
-                gen.close()      # tidy up inside the world (nothing below looks at later writes)
+                if sc.abort:
+                    # a torn-down execution (cut / deadlock / horizon): threads were unwound by force, a lock may still be
+                    # marked as owned; the execution is discarded anyway, make the tidy-up harmless
+                    for lk in (getattr(ws.session, '_lock', None), getattr(ws.state, 'send_lock', None)):
+                        if lk is not None and hasattr(lk, 'owner'):
+                            lk.owner, lk.depth = None, 0
+                try:
+                    gen.close()  # tidy up inside the world (nothing below looks at later writes)
+                except BaseException:  # noqa
+                    pass
         req, rest = ref_ws.split_http_request(b''.join(w.data for w in world.writes[:ex.wire_len]))
         ex.frames, ex.garbage = ref_ws.decode_client_stream(rest)
         return ex
